@@ -40,6 +40,9 @@ type Event struct {
 	T string `json:"tag"`         // directive tag / error class / free detail
 	A string `json:"args"`        // canonical JSON of received args (Start only)
 	G int64  `json:"g,omitempty"` // goroutine-ish id (unused in specs)
+	// CF: what graphql.CollectAllFields(ctx) answered inside the resolver (Start of a
+	// resolver whose field has a sub-selection): the API resolvers use to preload
+	CF []string `json:"cf,omitempty"`
 }
 
 // Run is the per-request state: plan in, events out.
@@ -380,7 +383,12 @@ func (u *Universe) resolver(typ, field string, ft reflect.Type) func([]reflect.V
 			}
 			args += Canon(in[i])
 		}
-		run.Log(Event{E: "Start", P: path, A: args})
+		var cf []string
+		if len(fc.Field.Selections) > 0 {
+			cf = graphql.CollectAllFields(ctx)
+			sort.Strings(cf)
+		}
+		run.Log(Event{E: "Start", P: path, A: args, CF: cf})
 		run.park(ctx, path)
 		out, ok := run.Plan[path]
 		if !ok {
